@@ -627,6 +627,14 @@ impl<'a> Exec<'a> {
                 }
                 self.do_dealloc(arena, h, i, true);
             }
+            Op::VecBuf { sel, act, try_ } => {
+                let Some(i) = self.model.select(sel) else { return self.disable() };
+                let b = self.model.blocks[i];
+                if !(b.align == 1 || (b.align == 8 && b.size % 8 == 0)) || b.size == 0 {
+                    return self.disable();
+                }
+                self.do_vecbuf(arena, h, i, act, try_);
+            }
             Op::Split { sel } => {
                 let Some(i) = self.model.select(sel) else { return self.disable() };
                 let b = self.model.blocks[i];
@@ -883,6 +891,87 @@ impl<'a> Exec<'a> {
                 self.model.last_returned = None;
                 self.expect_alloc_ok("grow", new);
             }
+        }
+    }
+
+    /// The selected block as the buffer of a full `BumpVec`: whatever the vector does with it, the buffer it ends up with
+    /// is a live block like any other (inside owned memory, aligned, disjoint from the others, old contents kept).
+    fn do_vecbuf(&mut self, arena: &mut dyn DynArena, h: Handle, i: usize, act: VecAct, try_: bool) {
+        let b = self.model.blocks[i];
+        self.note_outer_touch(&b);
+        let elem8 = b.align == 8;
+        let es = if elem8 { 8 } else { 1 };
+        let calls = self.count_calls();
+        arena.d_stats(&mut self.st2);
+        let count_before = self.st2.count;
+        let out = unsafe { Via::new(arena, h).vec_act(elem8, b.ptr, b.size / es, act, try_) };
+        if out.gone {
+            self.kill_at(i);
+            self.model.last_returned = None;
+            return;
+        }
+        if out.failed {
+            self.model.last_returned = None;
+            self.expect_alloc_ok("vector growth", b.layout());
+            if out.ptr != b.ptr || out.len != b.size || out.cap != b.size {
+                viol!(self, grp::FAILURE | grp::CONTAIN, "a failed try_ {act:?} changed the vector: buffer {:#x} len {} cap {} (was {:#x}, {}, {})", out.ptr.as_ptr() as usize, out.len, out.cap, b.addr(), b.size, b.size);
+            } else if self.on(grp::CONTENT) {
+                if let Some(k) = unsafe { verify_prefix(b.ptr, b.id, b.size) } {
+                    viol!(self, grp::CONTENT, "a failed try_ {act:?} changed byte {k} of the vector");
+                }
+            }
+            return;
+        }
+        let (keep, want_len, min_cap) = match act {
+            VecAct::Push => (b.size, b.size + es, b.size + es),
+            VecAct::Reserve(n) | VecAct::ReserveExact(n) => (b.size, b.size, b.size + n as usize * es),
+            VecAct::ExtendCopy(n) => (b.size, b.size + n as usize * es, b.size + n as usize * es),
+            VecAct::PopShrinkFit | VecAct::PopIntoBoxed => (b.size - es, b.size - es, b.size - es),
+            VecAct::Drop => unreachable!(),
+        };
+        if out.len != want_len {
+            viol!(self, grp::CONTAIN | grp::CONTENT, "{act:?} on a vector of {} bytes left a length of {} bytes, expected {want_len}", b.size, out.len);
+        }
+        if out.cap < min_cap || out.cap < out.len {
+            viol!(self, grp::CONTAIN, "{act:?} on a vector of {} bytes left a capacity of {} bytes, needs {min_cap}", b.size, out.cap);
+        }
+        if act == VecAct::PopShrinkFit && out.cap != b.size && out.cap != b.size - es {
+            viol!(self, grp::CONTAIN, "pop + shrink_to_fit on a full vector of {} bytes left a capacity of {} bytes", b.size, out.cap);
+        }
+        if out.cap > 0 && out.ptr.as_ptr() as usize % b.align != 0 {
+            viol!(self, grp::CONTAIN, "{act:?}: the vector's buffer {:#x} is not aligned to {}", out.ptr.as_ptr() as usize, b.align);
+        }
+        if self.on(grp::CONTENT) && out.cap >= out.len && out.len >= keep {
+            if let Some(k) = unsafe { verify_prefix(out.ptr, b.id, keep) } {
+                viol!(self, grp::CONTENT, "{act:?}: byte {k} of the vector's old contents was not preserved");
+            }
+            for k in keep..out.len {
+                if unsafe { *out.ptr.as_ptr().add(k) } != crate::facade::VEC_FILL {
+                    viol!(self, grp::CONTENT, "{act:?}: appended byte {k} reads back wrong");
+                    break;
+                }
+            }
+        }
+        if out.ptr != b.ptr {
+            self.cover.moved_realloc = true;
+        } else {
+            self.cover.inplace_realloc = true;
+        }
+        let depth = b.depth;
+        self.kill_at(i);
+        if out.cap == 0 {
+            self.model.last_returned = None;
+            return;
+        }
+        let nb = self.new_block(out.ptr, out.cap, b.align, b.elem);
+        if nb.addr() >= b.addr() && nb.addr() + nb.size <= b.addr() + b.size {
+            self.model.blocks.last_mut().unwrap().depth = depth;
+        }
+        let nb = *self.model.blocks.last().unwrap();
+        unsafe { fill(&nb) };
+        if self.count_calls() != calls {
+            self.cover.chunk_switch = true;
+            self.check_chunk_fit(arena, count_before, &nb);
         }
     }
 
